@@ -75,10 +75,16 @@ def run_check(prop: str, tier: str, seed: int) -> int:
         from .rules.common import check_positional_order
 
         check_positional_order(ctx, f"{prop}-ss", anchored)
+        from .rules.common import check_pinned_defaults
+
+        check_pinned_defaults(ctx, f"{prop}-ss", anchored)
         # shared rule D: double precision throughout (no narrower floating type named anywhere in the package)
         from .rules.dtypes import check_precision
 
         check_precision(ctx, f"{prop}-dd", anchored + rest)
+        from .rules.dtypes import check_bool_identity
+
+        check_bool_identity(ctx, f"{prop}-dd", anchored)
         # wall-clock limit for the rule module (the clean tree needs seconds): a term explosion on an unusual variant
         # ends as ANALYSIS-ERROR, never as a hang
         import signal
